@@ -350,9 +350,10 @@ Definition kt_begin_file_multi (cfg : kt_config) (crate_name : str) : str :=
     lit "package " ++ kt_package cfg ++ lit "." ++ crate_name ++ nl ++ nl ++
     lit "import kotlinx.serialization.Serializable" ++ nl ++
     lit "import kotlinx.serialization.SerialName" ++ nl ++ nl.
-(* kotlin.rs:288 write_imports *)
+(* kotlin.rs:293 write_imports: `import {package}.{crate}.{prefix}{name}` - a class is declared under the
+   prefixed name, so that is the name imported (fix 26) *)
 Definition kt_write_imports (cfg : kt_config) (imports : scoped) : str :=
-  flat_map (fun kv => flat_map (fun t => lit "import " ++ kt_package cfg ++ lit "." ++ fst kv ++ lit "." ++ t ++ nl) (snd kv)) imports ++ nl.
+  flat_map (fun kv => flat_map (fun t => lit "import " ++ kt_package cfg ++ lit "." ++ fst kv ++ lit "." ++ kt_prefix cfg ++ t ++ nl) (snd kv)) imports ++ nl.
 Definition kt_generate_multi (uc : unicode) (cfg : kt_config) (crate_name : str) (imports : scoped) (pd : parsed) : outcome str :=
   do items <- topsort (items_of pd);
   do body <- kt_concat (kt_write_item cfg) items;
